@@ -1377,6 +1377,9 @@ func (x *Exec) loopWrites2(fr *Frame, st *State, body map[*ssa.BasicBlock]bool) 
 						x.addFreshOnly(arraysOfType(func(sfx string) string { return fieldArrName(owner, fn, sfx) }, f.Type(), false))
 						continue
 					}
+					if al, ok := root.(*ssa.Alloc); ok && !al.Heap && body[al.Block()] {
+						continue // a field of a struct variable local to one iteration
+					}
 					if isPlainStruct(f.Type()) {
 						addStruct(f.Type())
 					} else {
@@ -1609,6 +1612,34 @@ func (x *Exec) loopRule(fr *Frame, hdr *ssa.BasicBlock, ord int, back bool, st *
 		for _, cl := range spec.Inv {
 			x.check(st, fmt.Sprintf("%sinv.%d.preserve.%s", fr.prefix, ord, cl.Label), evalInv(env, cl), pos)
 		}
+		for i := len(fr.loops) - 1; i >= 0; i-- {
+			if fr.loops[i].hdr == hdr {
+				lf := fr.loops[i]
+				for _, name := range sortedKeys(lf.modHead) {
+					head := lf.modHead[name]
+					cur := st.heap[name]
+					if cur == nil || cur == head {
+						continue
+					}
+					srt := arrSorts[name]
+					var goal *Term
+					if name == "G|world" {
+						continue
+					} else if srt != nil && srt.Kind == SArray && srt.Idx.Kind == SInt {
+						a := Const(freshName("loopframeaddr"), IntS)
+						pre := []*Term{Le(IntLit(1), a), Le(a, lf.modTop)}
+						for _, al := range lf.modAllowed[name] {
+							pre = append(pre, Neq(a, al))
+						}
+						goal = Implies(And(pre...), Eq(Select(cur, a), Select(head, a)))
+					} else {
+						goal = Eq(cur, head)
+					}
+					x.check(st, fmt.Sprintf("%sloopframe.%d.%s", fr.prefix, ord, shortArr(name)), goal, pos)
+				}
+				break
+			}
+		}
 		if spec.Decr != nil {
 			var prev *Term
 			for i := len(fr.loops) - 1; i >= 0; i-- {
@@ -1634,7 +1665,33 @@ func (x *Exec) loopRule(fr *Frame, hdr *ssa.BasicBlock, ord int, back bool, st *
 	for _, cell := range cells {
 		st.cells[cell] = st.fresh(cell.T, "loop|"+cell.name)
 	}
+	// a loop-level modifies clause narrows the whole-array havoc caused by calls in the body to the listed
+	// cells; that the body stays inside it is checked at the back edge (loopframe obligations)
+	var modHead map[string]*Term
+	var modAllowed map[string][]*Term
+	if len(spec.Modifies) > 0 {
+		menv := mkEnv()
+		modAllowed = map[string][]*Term{}
+		for _, l := range x.evalLocs(menv, c, spec.Modifies) {
+			if l.addr == nil {
+				continue
+			}
+			if _, whole := arrays[l.name]; whole {
+				modAllowed[l.name] = append(modAllowed[l.name], l.addr)
+				points = append(points, l)
+			}
+		}
+		for name := range modAllowed {
+			delete(arrays, name)
+		}
+	}
 	x.havoc(st, points)
+	if modAllowed != nil {
+		modHead = map[string]*Term{}
+		for name := range modAllowed {
+			modHead[name] = st.heap[name]
+		}
+	}
 	// arrays only written at addresses allocated after loop entry: havoc with a frame for older addresses
 	topAtEntry := st.heaptop
 	for _, nm := range sortedKeys(x.freshOnly) {
@@ -1677,7 +1734,7 @@ func (x *Exec) loopRule(fr *Frame, hdr *ssa.BasicBlock, ord int, back bool, st *
 	for _, cl := range spec.Inv {
 		st.assume(evalInv(env, cl))
 	}
-	lf := loopFrame{hdr: hdr}
+	lf := loopFrame{hdr: hdr, modHead: modHead, modAllowed: modAllowed, modTop: topAtEntry}
 	if spec.Decr != nil {
 		lf.decr = env.evalInt(spec.Decr)
 	}
